@@ -112,7 +112,9 @@ class Ctx:
             wall_s=round(time.time() - self.t0, 2),
             violations=len(new),
         )
-        if self.replay is None and os.path.realpath(REPO) != "/repo":
+        if os.environ.get("VERIF_NO_EVIDENCE"):
+            self.log("VERIF_NO_EVIDENCE set (developer run of a part of the check): evidence file left untouched")
+        elif self.replay is None and os.path.realpath(REPO) != "/repo":
             self.log("AU_REPO=%s is not /repo: evidence file left untouched" % REPO)
         elif self.replay is None:
             os.makedirs(os.path.join(VERIF, "evidence"), exist_ok=True)
